@@ -12,6 +12,7 @@ pub mod c08;
 pub mod c09;
 pub mod util;
 pub mod c10;
+pub mod c11;
 pub mod c12;
 pub mod c16;
 pub mod c18;
@@ -31,6 +32,7 @@ pub static ALL: &[(&str, RunFn, ReplayFn)] = &[
     ("C08", c08::run, c08::replay),
     ("C09", c09::run, c09::replay),
     ("C10", c10::run, c10::replay),
+    ("C11", c11::run, c11::replay),
     ("C12", c12::run, c12::replay),
     ("C18", c18::run, c18::replay),
 ];
